@@ -5,13 +5,14 @@
      `VFun ip n`: related through the list F of the literals evaluated so far (`vrel`);
    - the operators on function values: always a TypeError (tags), except == / != on two functions,
      which is the excluded event YExcl; the fused instruction computes what Sem computes for the
-     operands in source order (`fused_sem`: property C10);
+     operands in source order (`fused_agree`: property C10);
    - Sem's cells against slots: global slots (`ds`), the slots of the activation (`dl`), with holes
      for the reused slots of variables being initialised (as in part D); fresh activations; the
      cells of the caller are not touched by the callee (frame condition);
    - closures against table entries: the entry found by entry point is the literal's own entry
      because entry points of one program are pairwise different (`Sall`, `Suniq`; discharged for
-     the literals of a program in part H). *)
+     the literals of a program in part H);
+   - main result: `sem_yeval` (induction on Sem's fuel); the results are related by `corr`. *)
 From Coq Require Import ZArith Lia Bool List String.
 From NL.Model Require Import VM.
 From NL.Spec Require Import Sem Fragment Fragment2 Fragment3 ArithSpec.
@@ -610,8 +611,8 @@ Section Corr.
     | RSig (SigReturn vs) sst', YRet vy y' =>
         ce_mode E = MFun /\
         exists X, vrel (F ++ X) vs vy /\ Rel3 Sall E' (F ++ X) sst' y' /\ frame E sst sst'
-    | RErr k _, YErr k' => k' = k
-    | RFault f _, YFault f' => f' = f
+    | RErr k sst', YErr k' => k' = k /\ st_out sst' = st_out sst
+    | RFault f sst', YFault f' => f' = f /\ st_out sst' = st_out sst
     | _, _ => False
     end.
 End Corr.
@@ -643,7 +644,9 @@ Section CorrLemmas.
     intros E E2 F X sst sst1 r x Hf H.
     destruct r as [vs s'|[| |rv] s'|k s'|f s'|]; destruct x as [vy y'|y'|y'|vy y'|k'|f'| |]; cbn [corr] in *;
       try exact I; try contradiction; try exact H;
-      try (destruct k; try exact I; try contradiction; exact H).
+      try (destruct H as [Hk Ho]; split; [exact Hk|rewrite Ho; exact (proj1 Hf)]; fail);
+      try (destruct k; try exact I; try contradiction;
+           first [exact H|destruct H as [Hk Ho]; split; [exact Hk|rewrite Ho; exact (proj1 Hf)]]; fail).
     - destruct H as [X' [V [R Fr]]]. exists (X ++ X'). rewrite app_assoc. split; [exact V|]. split; [exact R|].
       exact (frame_trans _ _ _ _ Hf Fr).
     - destruct H as [X' [R Fr]]. exists (X ++ X'). rewrite app_assoc. split; [exact R|exact (frame_trans _ _ _ _ Hf Fr)].
@@ -675,7 +678,7 @@ Section CorrLemmas.
   Lemma corr_excl : forall E E' F sst r, corr Sall E E' F sst r YExcl.
   Proof. intros. destruct r as [vs s'|[| |rv] s'|e s'|f s'|]; try exact I. destruct e; exact I. Qed.
 
-  Lemma corr_err : forall E E' F sst k s', corr Sall E E' F sst (RErr k s') (YErr k).
+  Lemma corr_err : forall E E' F sst k, corr Sall E E' F sst (RErr k sst) (YErr k).
   Proof. intros. destruct k; cbn [corr]; auto. Qed.
 End CorrLemmas.
 
@@ -1653,7 +1656,7 @@ Section SemSim.
     cbn [corr]. exists [fe]. split.
     - cbn [vrel]. split; [apply zlength_nonneg|]. exists fe. split; [|reflexivity].
       unfold zlength. rewrite Nat2Z.id, <- (r_flen _ _ _ _ _ HR), nth_error_app2, Nat.sub_diag by lia. reflexivity.
-    - split; [exact (Rel3_newfun Sall E F sst y clo fe HR HS HC)|]. split; [reflexivity|]. split; [cbn; lia|auto].
+    - split; [exact (Rel3_newfun Sall E F sst y clo fe HR HS HC)|]. split; [reflexivity|]. split; [cbn [st_next]; lia|auto].
   Qed.
 
   (** ** Calls: a fresh activation, and the caller resumed intact *)
@@ -1849,8 +1852,8 @@ Section SemSim.
     | RSig (SigReturn v) sst', YRet v' y' =>
         ce_mode E = MFun /\
         exists X, vrel (F ++ X) v v' /\ Rel3 Sall E (F ++ X) sst' y' /\ frame E sst sst'
-    | RErr k _, YErr k' => k' = k
-    | RFault f _, YFault f' => f' = f
+    | RErr k sst', YErr k' => k' = k /\ st_out sst' = st_out sst
+    | RFault f sst', YFault f' => f' = f /\ st_out sst' = st_out sst
     | _, _ => False
     end.
 
@@ -1890,7 +1893,9 @@ Section SemSim.
         destruct (sem_list orc f c r s1) as [vs s2|[| |rv] s2|k s2|x0 s2|];
           destruct (yargs orc f sta r y1) as [vs' y2|y2|y2|v2 y2|k'|x'| |]; cbn [corr_a rbind ybind] in Cr |- *;
           try contradiction; try exact I;
-          try (destruct k; try contradiction; try exact I; exact Cr); try exact Cr.
+          try (destruct Cr as [Hk Ho]; split; [exact Hk|rewrite Ho; exact (proj1 Fr1)]; fail);
+          try (destruct k; try contradiction; try exact I;
+               first [exact Cr|destruct Cr as [Hk Ho]; split; [exact Hk|rewrite Ho; exact (proj1 Fr1)]]; fail); try exact Cr.
         * destruct Cr as [X2 [V2 [R2 Fr2]]]. exists (X ++ X2). rewrite app_assoc.
           split; [constructor; [apply vrel_mono; exact V|exact V2]|]. split; [exact R2|exact (frame_trans _ _ _ _ Fr1 Fr2)].
         * destruct Cr as [X2 [R2 Fr2]]. exists (X ++ X2). rewrite app_assoc. split; [exact R2|exact (frame_trans _ _ _ _ Fr1 Fr2)].
@@ -1992,7 +1997,9 @@ Section SemSim.
     destruct (exec_block orc f cc (fe_body fe) VNull sst1) as [v s2|[| |rv] s2|k s2|x0 s2|];
       destruct (yblock_g (ystmts orc f) (fe_st fe) (fe_body fe) y0) as [v' y3|y3|y3|v' y3|k'|x'| |];
       cbn [corr nosig] in Hbody, Nsb |- *; try contradiction; try exact I;
-      try (destruct k; try contradiction; try exact I; exact Hbody); try exact Hbody.
+      try (destruct Hbody as [Hk Ho]; split; [exact Hk|rewrite Ho; exact Ho1]; fail);
+      try (destruct k; try contradiction; try exact I;
+           first [exact Hbody|destruct Hbody as [Hk Ho]; split; [exact Hk|rewrite Ho; exact Ho1]]; fail); try exact Hbody.
     - destruct Hbody as [X [V [R3 Fr3]]].
       assert (gc_clean y3 = true) as -> by (unfold gc_clean; rewrite (r_gc _ _ _ _ _ R3); reflexivity).
       destruct (call_exit E E' F X sst sst1 s2 y y3 nf dl _ HR R3 Hext Fr3 Ho1 Hn1 Hf1 Hfresh) as [R4 Fr4].
@@ -2065,7 +2072,9 @@ Section SemSim.
     intros E E1 E2 F X sst sst1 r x Hf Hx Hmode H.
     destruct r as [vs s'|[| |rv] s'|k s'|f s'|]; destruct x as [vy y'|y'|y'|vy y'|k'|f'| |]; cbn [corr] in *;
       try exact I; try contradiction; try exact H;
-      try (destruct k; try exact I; try contradiction; exact H).
+      try (destruct H as [Hk Ho]; split; [exact Hk|rewrite Ho; exact (proj1 Hf)]; fail);
+      try (destruct k; try exact I; try contradiction;
+           first [exact H|destruct H as [Hk Ho]; split; [exact Hk|rewrite Ho; exact (proj1 Hf)]]; fail).
     - destruct H as [X' [V [R Fr]]]. exists (X ++ X'). rewrite app_assoc. split; [exact V|]. split; [exact R|].
       exact (frame_ext _ _ _ _ _ Hf Fr Hx).
     - destruct H as [X' [R Fr]]. exists (X ++ X'). rewrite app_assoc. split; [exact R|exact (frame_ext _ _ _ _ _ Hf Fr Hx)].
@@ -2580,17 +2589,20 @@ Section SemSim.
 
   (* the initialiser of `stel` has been evaluated in Eh (the new slot is a hole); then the rest *)
   Lemma seq_let : forall E Eh F sst sst1 r x (k : val -> sstate -> res val) (kx : val -> yst -> yres val) (P : cenv -> Prop),
-    corr Sall Eh Eh F sst1 r x -> nosig x -> P E ->
+    corr Sall Eh Eh F sst1 r x -> nosig x -> P E -> st_out sst1 = st_out sst ->
     (forall X s' y', Rel3 Sall Eh (F ++ X) s' y' -> frame Eh sst1 s' -> ce_mode Eh = MFun ->
        ce_mode E = MFun /\ Rel3 Sall E (F ++ X) s' y' /\ frame E sst s') ->
     (forall vs s1 vy y1 X, vrel (F ++ X) vs vy -> Rel3 Sall Eh (F ++ X) s1 y1 -> frame Eh sst1 s1 ->
        exists E', env_ext E E' /\ P E' /\ corr Sall E E' F sst (k vs s1) (kx vy y1)) ->
     exists E', env_ext E E' /\ P E' /\ corr Sall E E' F sst (rbind r k) (ybind x kx).
   Proof.
-    intros E Eh F sst sst1 r x k kx P H Hns HP Hund Hk.
+    intros E Eh F sst sst1 r x k kx P H Hns HP Hout Hund Hk.
+    assert (forall (A : Prop) s', A /\ st_out s' = st_out sst1 -> A /\ st_out s' = st_out sst) as Hsh.
+    { intros A s' [HA Ho]. split; [exact HA|congruence]. }
     destruct r as [vs s'|[| |rv] s'|e s'|f s'|]; destruct x as [vy y'|y'|y'|vy y'|k'|f'| |]; cbn [corr rbind ybind nosig] in *;
       try contradiction;
-      try (exists E; split; [apply env_ext_refl|]; split; [exact HP|]; first [exact I|exact H|destruct e; first [exact I|exact H]]; fail).
+      try (exists E; split; [apply env_ext_refl|]; split; [exact HP|];
+           first [exact I|exact H|exact (Hsh _ _ H)|destruct e; first [exact I|exact H|exact (Hsh _ _ H)]]; fail).
     - destruct H as [X [V [R Fr]]]. exact (Hk vs s' vy y' X V R Fr).
     - exists E. split; [apply env_ext_refl|]. split; [exact HP|].
       destruct (k vs s') as [a b|[| |c] b|e b|f b|]; try exact I. destruct e; exact I.
@@ -2758,6 +2770,7 @@ Section SemSim.
       + intros fe Ho. apply Hocc. apply oc_l_hd. apply oc_s_let. exact Ho.
     - exact (proj1 (yeval_nosig orc f) e fa fn st0 y HFe).
     - reflexivity.
+    - reflexivity.
     - intros X s' y' R' Fr' Hmd. rewrite mode_decl in Hmd. split; [exact Hmd|].
       split; [exact (Rel3_undecl E _ s' y' x cl fa true R' Hmd (r_lhlt _ _ _ _ _ HR))|].
       exact (frame_ext E _ sst _ s' Frh Fr' (fresh_decl E x sst fa true)).
@@ -2835,3 +2848,7 @@ Section SemSim.
     - split; [exact (step_e f IHe IHl IHw)|]. split; [exact (step_l f IHe IHl)|exact (step_w f IHe IHl IHw)].
   Qed.
 End SemSim.
+
+Print Assumptions sem_yeval.
+Print Assumptions fused_agree.
+Print Assumptions binop_agree.
